@@ -78,7 +78,7 @@ def gen(S, tier):
                 "prior_simple": False, "src_seed": 0}
     sc = {
         "depth": depth, "recursion": w.pick([0, 0, 0, 2, 5, 20]) if depth <= 6 else 0, "style": style,
-        "src_seed": w.getrandbits(40), "exc": srcgen.gen_exc_spec(w),
+        "src_seed": w.getrandbits(40), "cwd_gone": S("extension").chance(0.08), "exc": srcgen.gen_exc_spec(w),
         "verbosity": c.pick([0, 0, 1, 2, 4]), "utf8": c.chance(0.7), "ansi": c.chance(0.5),
         "simple": c.chance(0.12), "ignore": c.pick([None, None, "none", "some", "all"]),
         "two_modules": w.chance(0.4), "fault": None, "prior_simple": False,
@@ -477,8 +477,14 @@ def _run(sc, res, log, store, r):
         pre_len = len(strip_ansi(out.data()))
         res.probe("style_left_open_on_the_io_before")
         res.fault("io_with_open_style")
+    import clikit.ui.components.exception_trace as et_mod
+    from ..simenv import cwd_removed
     try:
-        trace.render(io, sc["simple"])
+        with cwd_removed(et_mod, bool(sc.get("cwd_gone"))) as cwd_hits:
+            trace.render(io, sc["simple"])
+        if cwd_hits[0]:
+            res.fault("working_directory_removed", cwd_hits[0])
+            res.probe("report_without_working_directory")
     except Exception as e:
         import traceback
         tbs = traceback.extract_tb(e.__traceback__)
